@@ -206,3 +206,32 @@ func VerifC12_blind_sign_verifies() {
 	}
 	vReach("signed")
 }
+
+// C12 / C13 (verification is a query): Verify does not change the signature it is given, so that
+// the same (r, s) can be checked again, under another key or by another verifier (the property's
+// "verifies under the blinded key but not under the original" is two checks of one signature)
+func VerifC12_verify_keeps_signature() {
+	vUnwind(160)
+	vUseModels("bigalg")
+	c := c13Curve()
+	priv, err := GenerateKey(c, &c13Reader{failAt: 1000})
+	vAssume(err == nil)
+	hash := vBytesC("hash", 0, 1)
+	bl := (c.Params().BitSize + 7) / 8
+	var rb, sb []byte
+	if vBool("honest_signature") {
+		r0, s0, err := Sign(&c13Reader{failAt: 1000}, priv, hash)
+		vAssume(err == nil)
+		rb, sb = r0.Bytes(), s0.Bytes()
+		vAssume(len(rb) == bl && len(sb) == bl && rb[0] != 0 && sb[0] != 0)
+	} else {
+		rb, sb = vBytesC("r", bl, bl), vBytesC("s", bl, bl)
+		vAssume(rb[0] != 0 && sb[0] != 0)
+	}
+	r, s := new(big.Int).SetBytes(rb), new(big.Int).SetBytes(sb)
+	first := Verify(&priv.PublicKey, hash, r, s)
+	vAssert(vBytesEq(r.Bytes(), rb), "r-unchanged-by-verify")
+	vAssert(vBytesEq(s.Bytes(), sb), "s-unchanged-by-verify")
+	vAssert(Verify(&priv.PublicKey, hash, r, s) == first, "second-check-gives-the-same-verdict")
+	vReach("verified-twice")
+}
